@@ -531,6 +531,8 @@ Fixpoint poll (fuel : nat) (s : dstate) (events : list val) : dstate * list val 
                   let cur := match r_kick r with Some k => Some (k_file k) | None => None end in
                   match cur with
                   | Some f0 =>
+                      (* read_kick leaves the counter alone and reports "not enabled" for a disabled ring *)
+                      if negb (r_enabled r) then (s, events) else
                       if pending_of s f0 =? 0 then
                         (* a stale registration woke the worker but the current descriptor is not readable: the
                            non-blocking read fails and the worker thread ends with an error *)
